@@ -1042,6 +1042,7 @@ fn check_text(ctx: &mut Ctx, req: &str, c: &TextCfg, old: &[u8], new: &[u8], ev:
     }
     if let Err(e) = &ev.all_driven {
         ctx.violation("C13", req, format!("iter_all_changes: {}", e));
+        ctx.violation("C04", req, format!("which changes iter_all_changes yields (and so what their values concatenate to) depends on how the iterator is consumed: {}", e));
     }
     if !ev.grouped_consistent {
         ctx.violation("C12", req, "TextDiff::grouped_ops(n) differs from group_diff_ops(ops, n)".to_string());
@@ -1273,6 +1274,32 @@ fn big_middle_text_cases(ctx: &mut Ctx) {
         match text_eval_mode(&c, DlHow::Deadline, Mode::Str, old.as_bytes(), new.as_bytes()) {
             None => ctx.violation("C04", &req, "the text diff panicked".to_string()),
             Some(e) => check_text(ctx, &req, &c, old.as_bytes(), new.as_bytes(), &e),
+        }
+    }
+    // DISJOINT middles (nothing in common, so even the quadratic table of LCS stays empty and cheap) of 3 300 x 3 300 lines
+    // (> 10^7 cells; thorough: 10 001 x 10 001 > 10^8 for LCS) between a shared head and tail: whatever an algorithm does
+    // above some table / work size must still report the shared ends
+    let sizes: &[usize] = if ctx.tier == Tier::Quick { &[3300] } else { &[3300, 10_001] };
+    for &m in sizes {
+        let mid_old: String = (0..m).map(|i| format!("o{}\n", i)).collect();
+        let mid_new: String = (0..m + 7).map(|i| format!("n{}\n", i)).collect();
+        for (h, t) in [(5usize, 5usize), (0, 3), (4, 0)] {
+            let head: String = (0..h).map(|i| format!("head {}\n", i)).collect();
+            let tail: String = (0..t).map(|i| format!("tail {}\n", i)).collect();
+            let old = format!("{}{}{}", head, mid_old, tail);
+            let new = format!("{}{}{}", head, mid_new, tail);
+            for alg in ALGS {
+                if m > 4000 && alg != Algorithm::Lcs {
+                    continue;
+                }
+                let c = TextCfg { kind: Kind::Lines, alg, nlt: None, dl: None };
+                let req = format!("text lines str {} - - | <{} shared lines, {} old lines, {} shared lines> | <{} shared, {} other lines, {} shared> | - | -", alg_name(alg), h, m, t, h, m + 7, t);
+                ctx.count("text.big_disjoint_middle_cases");
+                match text_eval_mode(&c, DlHow::Deadline, Mode::Str, old.as_bytes(), new.as_bytes()) {
+                    None => ctx.violation("C04", &req, "the text diff panicked".to_string()),
+                    Some(e) => check_text(ctx, &req, &c, old.as_bytes(), new.as_bytes(), &e),
+                }
+            }
         }
     }
 }
